@@ -77,73 +77,73 @@ func directAccesses(res pkgFiles) []string {
 // explicit `Option … none = panic` site of the model, or is guarded by a nil check in the code.
 var knownAccesses = map[string]string{
 	// lds.go
-	"UnmarshalLDS: lis.FilterChains":                                 "freshly allocated message",
-	"UnmarshalLDS: lis.DefaultFilterChain":                           "freshly allocated message",
-	"UnmarshalLDS: lis.Name":                                         "freshly allocated message",
-	"unmarshalFilterChain: fc.Filters":                               "element of a repeated field / checked non-nil",
-	"unmarshalFilterChain: cfgType.TypedConfig":                      "wrapper of a matched oneof case (non-nil)",
-	"unmarshalFilterChain: cfgType.TypedConfig.TypeUrl":              "model: PFilterCfg.typed none = panic (FromWire excludes)",
-	"unmarshalThriftProxy: tp.RouteConfig":                           "freshly allocated message; read through a nil-safe getter",
-	"unmarshalThriftProxy: tp.RouteConfig.Name":                      "only inside the loop over its routes (RouteConfig non-nil there)",
-	"unmarshalThriftProxy: r.Route":                                  "element of a repeated field",
-	"unmarshalThriftProxy: t.MethodName":                             "wrapper of a matched oneof case",
-	"unmarshalThriftProxy: t.ServiceName":                            "wrapper of a matched oneof case",
-	"unmarshalThriftProxy: cs.Cluster":                               "wrapper of a matched oneof case",
-	"unmarshalThriftProxy: cs.WeightedClusters":                      "wrapper of a matched oneof case",
-	"unmarshalThriftProxy: wcs.Clusters":                             "model: PThriftCluster.weighted none = panic (FromWire excludes)",
-	"unmarshalThriftProxy: routeMatch.Method":                        "local struct",
-	"unmarshalThriftProxy: routeMatch.ServiceName":                   "local struct",
-	"unmarshalThriftProxy: routeMatch.Tags":                          "local struct",
-	"unmarshalThriftProxy: route.Match":                              "local struct",
-	"unmarshalThriftProxy: route.WeightedClusters":                   "local struct",
-	"unmarshallHTTPConnectionManager: httpConnMng.RouteSpecifier":    "freshly allocated message",
-	"unmarshallHTTPConnectionManager: inlineRouteConfig.MaxTokens":   "result of unmarshalRouteConfig with nil error (non-nil)",
-	"unmarshallHTTPConnectionManager: inlineRouteConfig.TokensPerFill": "result of unmarshalRouteConfig with nil error (non-nil)",
-	"getLocalRateLimitFromHttpConnectionManager: hcm.HttpFilters":    "freshly allocated message",
-	"getLocalRateLimitFromHttpConnectionManager: filter.ConfigType":  "element of a repeated field",
-	"getLocalRateLimitFromHttpConnectionManager: lrl.TokenBucket":    "freshly allocated message",
+	"UnmarshalLDS: lis.FilterChains":                                              "freshly allocated message",
+	"UnmarshalLDS: lis.DefaultFilterChain":                                        "freshly allocated message",
+	"UnmarshalLDS: lis.Name":                                                      "freshly allocated message",
+	"unmarshalFilterChain: fc.Filters":                                            "element of a repeated field / checked non-nil",
+	"unmarshalFilterChain: cfgType.TypedConfig":                                   "wrapper of a matched oneof case (non-nil)",
+	"unmarshalFilterChain: cfgType.TypedConfig.TypeUrl":                           "model: PFilterCfg.typed none = panic (FromWire excludes)",
+	"unmarshalThriftProxy: tp.RouteConfig":                                        "freshly allocated message; read through a nil-safe getter",
+	"unmarshalThriftProxy: tp.RouteConfig.Name":                                   "only inside the loop over its routes (RouteConfig non-nil there)",
+	"unmarshalThriftProxy: r.Route":                                               "element of a repeated field",
+	"unmarshalThriftProxy: t.MethodName":                                          "wrapper of a matched oneof case",
+	"unmarshalThriftProxy: t.ServiceName":                                         "wrapper of a matched oneof case",
+	"unmarshalThriftProxy: cs.Cluster":                                            "wrapper of a matched oneof case",
+	"unmarshalThriftProxy: cs.WeightedClusters":                                   "wrapper of a matched oneof case",
+	"unmarshalThriftProxy: wcs.Clusters":                                          "model: PThriftCluster.weighted none = panic (FromWire excludes)",
+	"unmarshalThriftProxy: routeMatch.Method":                                     "local struct",
+	"unmarshalThriftProxy: routeMatch.ServiceName":                                "local struct",
+	"unmarshalThriftProxy: routeMatch.Tags":                                       "local struct",
+	"unmarshalThriftProxy: route.Match":                                           "local struct",
+	"unmarshalThriftProxy: route.WeightedClusters":                                "local struct",
+	"unmarshallHTTPConnectionManager: httpConnMng.RouteSpecifier":                 "freshly allocated message",
+	"unmarshallHTTPConnectionManager: inlineRouteConfig.MaxTokens":                "result of unmarshalRouteConfig with nil error (non-nil)",
+	"unmarshallHTTPConnectionManager: inlineRouteConfig.TokensPerFill":            "result of unmarshalRouteConfig with nil error (non-nil)",
+	"getLocalRateLimitFromHttpConnectionManager: hcm.HttpFilters":                 "freshly allocated message",
+	"getLocalRateLimitFromHttpConnectionManager: filter.ConfigType":               "element of a repeated field",
+	"getLocalRateLimitFromHttpConnectionManager: lrl.TokenBucket":                 "freshly allocated message",
 	"getLocalRateLimitFromHttpConnectionManager: filter.GetTypedConfig().TypeUrl": "guarded by filter.GetTypedConfig() == nil -> continue",
-	"getLocalRateLimitFromHttpConnectionManager: lrl.TokenBucket.MaxTokens":     "guarded by lrl.TokenBucket != nil",
-	"getLocalRateLimitFromHttpConnectionManager: lrl.TokenBucket.TokensPerFill": "guarded by lrl.TokenBucket != nil; read through a getter",
+	"getLocalRateLimitFromHttpConnectionManager: lrl.TokenBucket.MaxTokens":       "guarded by lrl.TokenBucket != nil",
+	"getLocalRateLimitFromHttpConnectionManager: lrl.TokenBucket.TokensPerFill":   "guarded by lrl.TokenBucket != nil; read through a getter",
 	// rds.go
 	"MatchPath: tm.Method": "receiver", "MatchMeta: tm.Tags": "receiver", "MatchPath: rm.Path": "receiver", "MatchPath: rm.Prefix": "receiver",
 	"MatchMeta: rm.Headers": "receiver", "MarshalJSON: r.Match": "receiver", "MarshalJSON: r.WeightedClusters": "receiver", "MarshalJSON: r.Timeout": "receiver",
-	"unmarshalRoutes: p.Prefix":                  "wrapper of a matched oneof case",
-	"unmarshalRoutes: p.Path":                    "wrapper of a matched oneof case",
-	"unmarshalRoutes: routeMatch.Prefix":         "local struct",
-	"unmarshalRoutes: routeMatch.Path":           "local struct",
-	"unmarshalRoutes: routeMatch.Headers":        "local struct",
-	"unmarshalRoutes: route.Match":               "local struct",
-	"unmarshalRoutes: a.Route":                   "wrapper of a matched oneof case; read through nil-safe getters",
-	"unmarshalRoutes: cs.Cluster":                "wrapper of a matched oneof case",
-	"unmarshalRoutes: cs.WeightedClusters":       "wrapper of a matched oneof case",
-	"unmarshalRoutes: wcs.Clusters":              "model: PClusterSpec.weighted none = panic (FromWire excludes)",
-	"unmarshalRoutes: route.WeightedClusters":    "local struct",
-	"unmarshalRoutes: route.Timeout":             "local struct",
-	"unmarshalRoutes: route.RetryPolicy":         "local struct",
-	"unmarshalRoutes: header.Name":               "element of a repeated field",
+	"unmarshalRoutes: p.Prefix":                       "wrapper of a matched oneof case",
+	"unmarshalRoutes: p.Path":                         "wrapper of a matched oneof case",
+	"unmarshalRoutes: routeMatch.Prefix":              "local struct",
+	"unmarshalRoutes: routeMatch.Path":                "local struct",
+	"unmarshalRoutes: routeMatch.Headers":             "local struct",
+	"unmarshalRoutes: route.Match":                    "local struct",
+	"unmarshalRoutes: a.Route":                        "wrapper of a matched oneof case; read through nil-safe getters",
+	"unmarshalRoutes: cs.Cluster":                     "wrapper of a matched oneof case",
+	"unmarshalRoutes: cs.WeightedClusters":            "wrapper of a matched oneof case",
+	"unmarshalRoutes: wcs.Clusters":                   "model: PClusterSpec.weighted none = panic (FromWire excludes)",
+	"unmarshalRoutes: route.WeightedClusters":         "local struct",
+	"unmarshalRoutes: route.Timeout":                  "local struct",
+	"unmarshalRoutes: route.RetryPolicy":              "local struct",
+	"unmarshalRoutes: header.Name":                    "element of a repeated field",
 	"unmarshalRoutes: route.RetryPolicy.CBErrorRate":  "local struct",
 	"unmarshalRoutes: route.RetryPolicy.Methods":      "local struct",
 	"unmarshalRoutes: route.RetryPolicy.RetryBackOff": "local struct",
-	"UnmarshalRDS: rcfg.Name":                    "freshly allocated message",
+	"UnmarshalRDS: rcfg.Name":                         "freshly allocated message",
 	// matcher.go
-	"Match: rm.re":                      "receiver",
-	"BuildMatchers: hm.StringMatch":     "wrapper of a matched oneof case; read through a nil-safe getter",
-	"BuildMatchers: p.Exact":            "wrapper of a matched oneof case",
-	"BuildMatchers: p.Prefix":           "wrapper of a matched oneof case",
-	"BuildMatchers: p.SafeRegex":        "wrapper of a matched oneof case",
-	"BuildMatchers: p.SafeRegex.Regex":  "guarded by p.SafeRegex != nil",
-	"BuildMatchers: header.Name":        "element of a repeated field",
+	"Match: rm.re":                     "receiver",
+	"BuildMatchers: hm.StringMatch":    "wrapper of a matched oneof case; read through a nil-safe getter",
+	"BuildMatchers: p.Exact":           "wrapper of a matched oneof case",
+	"BuildMatchers: p.Prefix":          "wrapper of a matched oneof case",
+	"BuildMatchers: p.SafeRegex":       "wrapper of a matched oneof case",
+	"BuildMatchers: p.SafeRegex.Regex": "guarded by p.SafeRegex != nil",
+	"BuildMatchers: header.Name":       "element of a repeated field",
 	// cds.go
 	"MarshalJSON: c.DiscoveryType": "receiver", "MarshalJSON: c.LbPolicy": "receiver", "MarshalJSON: c.EndpointName": "receiver",
-	"InlineEDS: c.InlineEndpoints":  "receiver",
-	"unmarshalCluster: c.Name":      "freshly allocated message",
-	"unmarshalCluster: c.OutlierDetection": "freshly allocated message",
+	"InlineEDS: c.InlineEndpoints":                                        "receiver",
+	"unmarshalCluster: c.Name":                                            "freshly allocated message",
+	"unmarshalCluster: c.OutlierDetection":                                "freshly allocated message",
 	"unmarshalCluster: c.OutlierDetection.FailurePercentageRequestVolume": "guarded by c.OutlierDetection != nil; read through a getter",
 	"unmarshalCluster: c.OutlierDetection.FailurePercentageThreshold":     "guarded by c.OutlierDetection != nil; read through a getter",
-	"unmarshalCluster: ret.OutlierDetection": "local struct",
-	"unmarshalCluster: ret.EndpointName":     "local struct",
-	"unmarshalCluster: ret.InlineEndpoints":  "local struct",
+	"unmarshalCluster: ret.OutlierDetection":                              "local struct",
+	"unmarshalCluster: ret.EndpointName":                                  "local struct",
+	"unmarshalCluster: ret.InlineEndpoints":                               "local struct",
 	// eds.go
 	"Addr: e.addr": "receiver", "Weight: e.weight": "receiver", "Meta: e.meta": "receiver", "MarshalJSON: e.addr": "receiver",
 	"MarshalJSON: e.weight": "receiver", "MarshalJSON: e.meta": "receiver", "Tag: e.meta": "receiver",
